@@ -287,6 +287,10 @@ def _request_numbers_unique(prog, chk):
         ok = ok and len(adds) >= 1
     chk.ob("R6.number-recorded-sent-and-returned", "_async_request", ok, ar.loc,
            "num = self.request_number is written as the first field, recorded in _expecting[num] and returned; the counter advances once")
+    snd = [n for (n, c) in lf.fl.nodes_with_call(name="self._send_packet")]
+    okb = len(snd) == 1 and len(regs) == 1 and lf.fl.dominated(snd, guard_nodes=regs, complete=True)
+    chk.ob("R6.registered-before-sent", "_async_request", okb, ar.loc,
+           "the request is in _expecting before its packet goes out (a reply read by another thread in between would be dropped as unexpected and the caller wait for ever)")
 
 
 def _peer_counted_loops_bounded(prog, chk):
